@@ -203,6 +203,11 @@ pub fn generate(tier: Tier, rng: &mut Rng) -> Vec<Case> {
             spec.vars.push(("m".into(), Value::Map(Map { map: Arc::new(hm) })));
             for (sp, m) in [(&default, lit.clone()), (&spec, "m".to_string())] {
                 push(&mut out, sp, format!("[has({m}.{fname}), '{fname}' in {m}, {m}.contains('{fname}'), {m}['{fname}'] != null]"), Some(format!("(ok (list {0} {0} {0} {0}))", b(present))), vec!["map", "function-named-field"]);
+                if present {
+                    // … and selection reads the entry, as indexing does (the function of that name
+                    // is what selection falls back to only when there is no such entry)
+                    push(&mut out, sp, format!("[{m}.{fname} == {m}['{fname}'], {m}.{fname}, {m}.other == {m}['other']]"), Some("(ok (list (bool 1) (int 1) (bool 1)))".to_string()), vec!["map", "function-named-field", "select"]);
+                }
             }
         }
     }
